@@ -16,7 +16,7 @@ RULE = ('differential testing over process-wide configurations: Hypothesis draws
         'parse_component(..., version=V, encoding_chars=E, validation_level=L) observed with to_er7(E); Message(M, version=V, '
         'validation_level=L, encoding_chars=E) populated through traversal / add_*; stand-alone Segment / Field / Component / SubComponent '
         'constructors with add_* calls; datatype_factory(dt, value, V, L) with valid, invalid and over-long values - and a configuration '
-        'B = (default version in 12 versions, default level in 2, default delimiter set in {standard, a disjoint custom set}). The '
+        'B = (default version in 12 versions, default level in 2, default delimiter set in {standard, a disjoint custom set, a custom set of characters that occur in ordinary content}). The '
         'closure is run (i) entirely under the library defaults, (ii) entirely under B, (iii) phase 1 under the library defaults and '
         'phase 2 (further operations and all observations) after switching to B. Oracle: the three outcomes - observed values or '
         'exception type and text - are identical. Defaults are restored after every case. Non-trivial = B differs from the closure\'s '
@@ -26,10 +26,12 @@ ASSUMPTIONS = [
     'message text without MSH-12, string assignment to a parent-less segment) are default-dependent by documentation and not in the corpus',
 ]
 TECHNIQUE = 'Hypothesis differential testing of explicit-argument closures across process-wide default configurations'
-LEVEL_TEXT = 'exploration: sampled closures x sampled configurations (12 default versions x 2 levels x 2 delimiter sets)'
+LEVEL_TEXT = 'exploration: sampled closures x sampled configurations (12 default versions x 2 levels x 3 delimiter sets)'
 LEVEL_NOTE = 'trusted: the closure corpus really is explicit (audited list in this module); module globals of hl7apy are saved/restored around each case'
 
 CUSTOM = {'FIELD': '!', 'COMPONENT': '$', 'SUBCOMPONENT': '%', 'REPETITION': '*', 'ESCAPE': '@'}
+# a second set whose characters occur in ordinary content (version numbers, decimals, times): legal, unusual
+CUSTOM2 = {'FIELD': '#', 'COMPONENT': '.', 'SUBCOMPONENT': ':', 'REPETITION': '+', 'ESCAPE': '?'}
 
 
 _PRISTINE = {}       # dictionaries of the library taken before any default was touched: name -> (object, copy of its content)
@@ -83,7 +85,7 @@ class Defaults(object):
         self.h.set_default_version(cfg['v'])
         self.h.set_default_validation_level(cfg['level'])
         if cfg['custom_ec']:
-            self.h.set_default_encoding_chars(dict(CUSTOM))
+            self.h.set_default_encoding_chars(dict(CUSTOM2 if cfg['custom_ec'] == 2 else CUSTOM))
         else:
             self.h._DEFAULT_ENCODING_CHARS = self.saved[0]
 
@@ -309,7 +311,7 @@ def c17_leaf(v, dt, ec):
 
 @st.composite
 def configs(draw):
-    return {'v': draw(st.sampled_from(T.VERSIONS)), 'level': draw(st.sampled_from([1, 2])), 'custom_ec': draw(st.booleans())}
+    return {'v': draw(st.sampled_from(T.VERSIONS)), 'level': draw(st.sampled_from([1, 2])), 'custom_ec': draw(st.sampled_from([False, True, True, 2]))}
 
 
 @st.composite
